@@ -2350,6 +2350,144 @@ def check_const_alias(ck, facts):
 
 
 # =====================================================================================================
+# tuple gates: the system gate is built component by component from the component gates
+# =====================================================================================================
+
+def check_gate_tuple(ck, facts):
+    """Control::Asm::build_gate_tuple(gate_sys, gate_0, ..., gate_{K-1}): for every component k
+       (a) the neighbour ranks of gate_k are inserted into the set of neighbours the system mirrors are pushed for (union over ALL components),
+       (b) sub-mirror at<k>() of the system mirror for neighbour `rank` is a clone of gate_k.get_mirrors()[i] under the guard gate_k.get_ranks()[i] == rank,
+       (c) component at<k>() of the template vector is cloned from gate_k.get_freqs()."""
+    rule = "E1.tuple-gate-components"
+    for fn in facts.functions:
+        if fn.tk == "pattern" or strip_targs(fn.qn) != "FEAT::Control::Asm::build_gate_tuple" or fn.cfg is None or len(fn.params) < 3:
+            continue
+        K = len(fn.params) - 1
+        fk = "Control::Asm::build_gate_tuple/%d" % K
+        rs = Resolver(fn)
+        par = dfl.parents(fn)
+        comp_of = {p["d"]: k for k, p in enumerate(fn.params[1:])}
+        sysd = fn.params[0]["d"]
+        pushes = [c for c in calls_of(fn) if c.get("k") == "MCall" and callee_name(c) == "push" and rs.path(c.get("obj")).steps == (("param", sysd),)]
+        loops = dfl.enclosing_loops(fn, par, pushes[0]) if len(pushes) == 1 else []
+        L = loops[-1] if loops else None
+        if len(pushes) != 1 or L is None or L.get("k") != "ForRange" or not (len(rs.path(L.get("range")).steps) == 1 and rs.path(L["range"]).steps[0][0] == "local"):
+            ck.incomplete(rule, "%s: the loop over the neighbour set that pushes the system mirrors is not recognised (%d push calls)" % (fk, len(pushes)))
+            continue
+        S = rs.path(L["range"])
+        rank_d = (L.get("var") or {}).get("d")
+        range_loops = {(x.get("var") or {}).get("d"): x for x in dfl.own_nodes(fn) if x.get("k") == "ForRange"}
+
+        def gate_accessor(p_, name):
+            """component index if the path is gate_k.<name>() [possibly subscripted], else None"""
+            st = p_.steps
+            if len(st) >= 2 and st[0][0] == "param" and st[0][1] in comp_of and st[1][0] == "call" and st[1][1] == name:
+                return comp_of[st[0][1]]
+            return None
+
+        def iter_range(a0, a1):
+            """path of the container of an iterator pair (c.begin(), c.end())"""
+            a0, a1 = rs.value(a0), rs.value(a1)
+            if a0.get("k") == "MCall" and a1.get("k") == "MCall" and callee_name(a0) in ("begin", "cbegin") and callee_name(a1) in ("end", "cend") \
+                    and rs.path(a0.get("obj")) == rs.path(a1.get("obj")):
+                return rs.path(a0.get("obj"))
+            return None
+        sources, unk_src = set(), []
+        sv = rs.var(S.steps[0][1])
+        ini = sv.get("init") if sv is not None else None
+        if ini is not None and is_call(ini) and len(ini.get("a", [])) == 2:
+            src = iter_range(*ini["a"])
+            if src is None:
+                unk_src.append("initialiser %s of the neighbour set" % render(ini)[:50])
+            else:
+                sources.add(src)
+        for c in calls_of(fn):
+            if c.get("callee") in dfl.MOVE_FNS or c is pushes[0]:
+                continue
+            recv = dfl.receiver(c)
+            if c.get("k") == "MCall" and recv is not None and rs.path(recv) == S and not c.get("cconst"):
+                a = c.get("a", [])
+                src = None
+                if callee_name(c) in ("insert", "emplace") and len(a) == 1:
+                    v = norm._strip(a[0])
+                    for _ in range(3):
+                        # a const copy of the range variable (`const int rk = r;`), but not the hidden iterator dereference of the range variable itself
+                        if v is not None and v.get("k") == "Ref" and v.get("dk") == "local" and v.get("d") not in range_loops and v["d"] not in dfl.assigned_decls(fn) \
+                                and rs.var(v["d"]) is not None and rs.var(v["d"]).get("init") is not None:
+                            v = norm._strip(rs.var(v["d"])["init"])
+                    if v is not None and v.get("k") == "Ref" and v.get("d") in range_loops and any(x is range_loops[v["d"]] for x in dfl.enclosing_loops(fn, par, c)):
+                        src = rs.path(range_loops[v["d"]].get("range"))
+                elif callee_name(c) == "insert" and len(a) == 2:
+                    src = iter_range(a[0], a[1])
+                if src is None:
+                    unk_src.append(render(c)[:60])
+                else:
+                    sources.add(src)
+            elif any(a_ is not recv and pt_ is not None and is_nonconst_ref(pt_) and rs.path(a_) == S for a_, pn_, pt_ in dfl.call_args_with_params(c, fn)):
+                unk_src.append(render(c)[:60])
+        src_comps = {gate_accessor(p_, "get_ranks") for p_ in sources if len(p_.steps) == 2}
+        # sub-mirror and template-vector components
+        mir, frq, unk_c = {}, {}, []
+        for c in calls_of(fn):
+            if c.get("k") != "MCall" or callee_name(c) not in ("clone", "convert", "operator=") and not (c.get("k") == "OpCall"):
+                continue
+            st = rs.path(c.get("obj")).steps
+            if not (len(st) == 2 and st[0][0] == "local" and st[1][0] == "call" and re.match(r"at<\d+>$", st[1][1])):
+                continue
+            k = int(st[1][1][3:-1])
+            src = rs.path(c["a"][0]) if c.get("a") else None
+            if "TupleMirror" in (st[1][3] or ""):
+                gk = gate_accessor(src, "get_mirrors") if src is not None else None
+                guard = None
+                for cnd, br in enclosing_conds(par, c):
+                    cn = norm._strip(cnd)
+                    if br == "then" and cn.get("k") == "Bin" and cn.get("op") == "==":
+                        for u, v in ((cn["lhs"], cn["rhs"]), (cn["rhs"], cn["lhs"])):
+                            pu, vv = rs.path(u), norm._strip(v)
+                            if gate_accessor(pu, "get_ranks") is not None and vv is not None and vv.get("k") == "Ref" and vv.get("d") == rank_d:
+                                guard = (gate_accessor(pu, "get_ranks"), pu.steps[2:] if len(pu.steps) > 2 else ())
+                sub = src.steps[2:] if src is not None and len(src.steps) > 2 else ()
+                sub_ix = tuple(x[1] if x[0] == "index" else x[2] for x in sub)
+                g_ix = tuple(x[1] if x[0] == "index" else x[2] for x in guard[1]) if guard else None
+                mir.setdefault(k, []).append((c, gk, guard[0] if guard else None, sub_ix == g_ix if guard else None))
+            elif "TupleVector" in (st[1][3] or ""):
+                frq.setdefault(k, []).append((c, gate_accessor(src, "get_freqs") if src is not None else None))
+        for k in range(K):
+            key = "%s/component %d" % (fk, k)
+            problems, unknown = [], []
+            if k not in src_comps:
+                (unknown if unk_src else problems).append((fn.line, "the neighbour ranks of component gate %d (%s.get_ranks()) are never added to the neighbour set %s (sources: %s)%s: for a neighbour that only this "
+                                                           "component has, no system mirror is pushed — its shared dofs are never exchanged and their frequencies are too large" % (
+                                                               k, fn.params[k + 1]["n"], S, ", ".join(sorted(map(repr, sources))) or "none",
+                                                               ("; not understood: " + "; ".join(unk_src)[:120]) if unk_src else "")))
+            ms = mir.get(k, [])
+            if len(ms) != 1:
+                unknown.append((fn.line, "%d clones into sub-mirror at<%d>() of the system mirror (expected one)" % (len(ms), k)))
+            else:
+                c, gk, gg, same_ix = ms[0]
+                if gk is None or gg is None:
+                    unknown.append((c.get("l"), "source / guard of the clone into sub-mirror at<%d>() not understood (%s)" % (k, render(c)[:60])))
+                else:
+                    if gk != k:
+                        problems.append((c.get("l"), "sub-mirror at<%d>() is cloned from the mirrors of component gate %d" % (k, gk)))
+                    if gg != gk:
+                        problems.append((c.get("l"), "the mirror of component gate %d is selected by comparing the ranks of component gate %d with the neighbour rank" % (gk, gg)))
+                    elif same_ix is False:
+                        problems.append((c.get("l"), "mirror and rank of component gate %d are subscripted differently in %s" % (gk, render(c)[:60])))
+            fs = frq.get(k, [])
+            if len(fs) != 1 or fs[0][1] is None:
+                unknown.append((fn.line, "component at<%d>() of the template vector is not a recognised clone of a component gate's frequencies" % k))
+            elif fs[0][1] != k:
+                problems.append((fs[0][0].get("l"), "component at<%d>() of the template vector is cloned from the frequencies of component gate %d" % (k, fs[0][1])))
+            if unknown and not problems:
+                ck.incomplete(rule, "%s: %s" % (key, "; ".join("line %s: %s" % u for u in unknown)[:400]))
+                continue
+            ck.ob(rule, key, not problems, "; ".join("line %s: %s" % p_ for p_ in problems) or
+                  "ranks of %s join the neighbour set; at<%d>() of the system mirror <- %s.get_mirrors()[i] where %s.get_ranks()[i] == rank; at<%d>() of the template vector <- %s.get_freqs()" % (
+                      fn.params[k + 1]["n"], k, fn.params[k + 1]["n"], fn.params[k + 1]["n"], k, fn.params[k + 1]["n"]), fn.file, problems[0][0] if problems else fn.line)
+
+
+# =====================================================================================================
 # driver
 # =====================================================================================================
 
@@ -2413,6 +2551,10 @@ def declare_rules(ck):
     ck.rule("E2.const-input-not-aliased", "a local obtained as in.clone(mode) from an object reachable through a const parameter / const this and modified afterwards "
             "(from_1_to_0, sync, scale, passed as output ...) owns its value array: mode is Deep / Weak / Layout / Allocate, never Shallow (which shares the values with the const "
             "input). Broken => the caller's input vector / matrix is changed in place on every multi-process call", 6)
+    ck.rule("E1.tuple-gate-components", "Control::Asm::build_gate_tuple (2 and 3 components): for every component k the ranks of gate_k join the neighbour set the system mirrors are "
+            "pushed for (union over all components), sub-mirror at<k>() of the system mirror of neighbour `rank` is cloned from gate_k.get_mirrors()[i] under the guard "
+            "gate_k.get_ranks()[i] == rank, and at<k>() of the template vector from gate_k.get_freqs(). Broken (a component's ranks not added) => for component spaces with different "
+            "neighbour sets (facet-based / vertex-based at a cross point) the dofs shared only through that component are never exchanged", 5)
     ck.rule("E4.global-accessors", "Global::Transfer::get_mat_X forwards to the local transfer's get_mat_X (method parity)", 6)
     ck.rule("E4.global-delegate", "Global::Transfer::{prol,prol_recv,rest,rest_send,trunc,trunc_send} on the MPI parse: every path applies exactly the local operator of the same kind; "
             "the type-0 result of a restriction / truncation / prolongation is sync_0'ed on EVERY branch (with and without coarse-level muxer) before the function returns, a temporary "
@@ -2452,6 +2594,16 @@ def run(tier):
     declare_rules(ck)
     facts = load(ck)
     analyse(ck, facts, "double,u64")
+    try:
+        fg = featlib.extract("tu/c13_gate_asm.cpp", files=R("control/asm/gate_asm.hpp"), mpi=True)
+        ck.tu(fg)
+        for e in fg.errors_outside_repo():
+            ck.incomplete("E1.tuple-gate-components", "driver tu/c13_gate_asm.cpp no longer matches the API: %s:%s %s" % (e["file"], e["line"], e["msg"]))
+        for e in fg.errors_in_repo()[:3]:
+            ck.incomplete("E1.tuple-gate-components", "front-end error while instantiating build_gate_tuple: %s:%s %s" % (rel(e["file"]), e["line"], e["msg"]))
+        norm.run_with_inlining(ck, check_gate_tuple, fg, norm.InlinedFacts(fg, inline_select))
+    except featlib.AnalysisBroken as e:
+        ck.incomplete("E1.tuple-gate-components", "tu/c13_gate_asm.cpp: MPI parse failed: %s" % str(e)[:200])
     if tier != "quick":
         f2 = load(ck, alt=True)
         analyse(ck, f2, "float,u32")
@@ -2482,6 +2634,8 @@ def run(tier):
         "inline buffers; (3) per-neighbour index coherence of ranks / mirrors / buffers / request slots, message length from the same buffer, gather before isend; (4) the "
         "completion handler is scatter_axpy(buffer idx, mirror idx) and the scatter kernels only add, so arrival order cannot matter; gather/scatter kernels address the same cells; "
         "(5) type-0/type-1 discipline: Global::Matrix::apply* = local product + sync_0 on every path, Gate::dot weights by the frequencies exactly once, Gate::compile builds the "
-        "reciprocal multiplicities, sync_1 scales once before the exchange, Global::Vector delegates with parity; Muxer child slices. NOT decided: equality with the one-process run, "
+        "reciprocal multiplicities, sync_1 scales once before the exchange, Global::Vector delegates with parity; Muxer child slices; (6) tuple gates (Control::Asm::build_gate_tuple): ranks / mirrors / frequencies of every component gate reach "
+        "component k of the system gate. Refactored forms are normalised before the rules decide: hoisted pointers / running cursors / loop forms of the mirror kernels (polynomial "
+        "cell addresses), sibling forwarding of Gate and Global::Vector members, conditions and local assignments along CFG paths, same-file helpers and non-generic closures inlined. NOT decided: equality with the one-process run, "
         "global dof counts, message schedules / deadlock freedom, neighbour symmetry of the halos (C12), MatrixMirror gather/scatter kernels, Splitter data movement, "
         "SynchScalarTicket with FEAT_MPI_THREAD_MULTIPLE (thread variant is not compiled in this configuration).")
